@@ -19,19 +19,41 @@ struct System {
     std::string desc;
 };
 
-// SPD M-matrix on a generated graph with 50..400 nodes (smaller graphs are replicated and chained)
-inline System gen_system(Tape &t, int nmax = 400, int nmin = 50) {
+// The coefficients of a system are not what these properties are about, and a tape that spells out every edge weight makes a failing
+// case shrink for many minutes (each of several thousand words is shrunk separately). The system is therefore decoded from a
+// *derived* tape: one word of the case tape seeds a SplitMix64 stream that plays the role of the tape for vf::gen_graph / gen_mmat /
+// gen_vec. Still a pure function of the case tape; word 0 gives the all-zero derived tape, i.e. the simplest system.
+inline vf::Tape derived_tape(vf::Tape &t, size_t nwords = 24000) {
+    uint32_t seed = static_cast<uint32_t>(t.u(0, 0xffffffffLL));
+    std::vector<uint32_t> w(nwords, 0);
+    if (seed) {
+        uint64_t s = seed;
+        for (auto &x : w) { s += 0x9E3779B97F4A7C15ULL; uint64_t z = s; z = (z ^ (z >> 30)) * 0xBF58476D1CE4E5B9ULL; z = (z ^ (z >> 27)) * 0x94D049BB133111EBULL; z ^= z >> 31; x = static_cast<uint32_t>(z >> 16); }
+    }
+    return vf::Tape(w);
+}
+
+// graph with at least nmin nodes: smaller generated graphs are replicated and chained
+inline vf::Graph gen_graph_min(vf::Tape &t, int nmax, int nmin) {
     vf::Graph g = vf::gen_graph(t, nmax, 0, 8);
     if (g.n < nmin) {
         int r = (nmin + g.n - 1) / g.n, n0 = g.n;
         vf::Graph h; h.family = g.family + "*" + std::to_string(r); h.n = n0 * r;
         for (int k = 0; k < r; ++k) {
-            for (size_t e = 0; e < g.edges.size(); ++e) { h.edges.push_back(std::make_pair(g.edges[e].first + k * n0, g.edges[e].second + k * n0)); h.axis.push_back(g.axis[e]); }
-            if (k + 1 < r) { h.edges.push_back(std::make_pair(k * n0 + n0 - 1, (k + 1) * n0)); h.axis.push_back(-1); }
+            for (auto &e : g.edges) h.edges.push_back(std::make_pair(e.first + k * n0, e.second + k * n0));
+            if (k + 1 < r) h.edges.push_back(std::make_pair(k * n0 + n0 - 1, (k + 1) * n0));
         }
-        std::sort(h.edges.begin(), h.edges.end()); // axis tags are only used for anisotropy; keep them aligned
-        g = h; g.axis.assign(g.edges.size(), -1);
+        std::sort(h.edges.begin(), h.edges.end());
+        h.axis.assign(h.edges.size(), -1);
+        g = h;
     }
+    return g;
+}
+
+// SPD M-matrix on a generated graph with nmin..nmax nodes, right-hand side and initial guess
+inline System gen_system(Tape &case_tape, int nmax = 400, int nmin = 50) {
+    vf::Tape t = derived_tape(case_tape);
+    vf::Graph g = gen_graph_min(t, nmax, nmin);
     vf::MmatInfo info;
     vf::Csr<double> A = vf::gen_mmat(t, g, 10.0, false, &info);
     System s; s.n = static_cast<size_t>(A.n); s.ptr = A.ptr; s.col = A.col; s.val = A.val;
@@ -44,13 +66,31 @@ inline System gen_system(Tape &t, int nmax = 400, int nmin = 50) {
     return s;
 }
 
+
+// Development aid for writing regression files: with VF_FIND="text1;text2" in the environment a case whose description + labels contain
+// all the texts is reported as a failure ("VF_FIND matched"), so that rapidcheck shrinks it and writes the .case file. Unset in every check run.
+inline void find_case(Ctx &c) {
+    const char *f = getenv("VF_FIND");
+    if (!f || !*f) return;
+    std::string d = c.desc.str(), pat(f);
+    for (auto &l : c.labels) d += " [" + l + "]";
+    size_t p = 0;
+    while (p <= pat.size()) {
+        size_t q = pat.find(';', p); if (q == std::string::npos) q = pat.size();
+        if (q > p && d.find(pat.substr(p, q - p)) == std::string::npos) return;
+        p = q + 1;
+    }
+    throw vf::Fail("VF_FIND matched");
+}
+
 struct Result {
     bool threw = false; std::string what;
     size_t iters = 0; double resid = 0; std::vector<double> x;
     size_t levels = 0;
 };
 
-inline bool same_bits(double a, double b) { return std::memcmp(&a, &b, sizeof a) == 0; }
+// bitwise equality; two NaNs are equal whatever their sign/payload (which instruction produced the NaN is not an observable of the library)
+inline bool same_bits(double a, double b) { return (a != a && b != b) || std::memcmp(&a, &b, sizeof a) == 0; }
 
 inline void require_identical(const Result &rt, const Result &ct, const std::string &label) {
     VF_REQUIRE(rt.threw == ct.threw, label << ": run-time assembled solver " << (rt.threw ? "threw '" + rt.what + "'" : std::string("succeeded")) << " but the compile-time one "
@@ -144,6 +184,7 @@ void equiv_case(Tape &t, Ctx &c, const char *label, const TypeKeys &types, const
         for (auto &k : reported) VF_REQUIRE(injected.count(k), label << ": key '" << k << "' reported as unknown by the run-time interface although " << (known.count(k) ? "it is a parameter" : "it was never given"));
         for (auto &k : injected) VF_REQUIRE(reported.count(k), label << ": unknown key '" << k << "' silently dropped by the run-time interface; reported=" << set_to_string(reported));
     }
+    find_case(c);
 }
 
 
